@@ -190,7 +190,7 @@ pub fn mtu() -> BoxedStrategy<(u16, u16, u16)> {
 
 pub fn endpoint(cfg: GenCfg) -> BoxedStrategy<EndpointCfg> {
     (limits(cfg), prop_oneof![3 => Just(Cc::Cubic), 1 => Just(Cc::Bbr)], mtu())
-        .prop_map(|(limits, cc, mtu)| EndpointCfg { limits, cc, mtu, cid: CidCfg::default(), datagram: false })
+        .prop_map(|(limits, cc, mtu)| EndpointCfg { limits, cc, mtu, cid: CidCfg::default(), datagram: false, retry: false })
         .boxed()
 }
 
@@ -230,6 +230,16 @@ pub fn net(cfg: GenCfg) -> BoxedStrategy<NetCfg> {
             .prop_map(|(delay_us, tape_up, tape_down)| NetCfg { delay_us, tape_up, tape_down, tape_repeat: false, ..Default::default() })
             .boxed(),
     }
+}
+
+/// the same scenarios, a quarter of them with a server that validates the client's address with a Retry first
+pub fn with_retry(s: BoxedStrategy<Scenario>) -> BoxedStrategy<Scenario> {
+    (s, prop::bool::weighted(0.25))
+        .prop_map(|(mut sc, retry)| {
+            sc.server.retry = retry;
+            sc
+        })
+        .boxed()
 }
 
 pub fn scenario(cfg: GenCfg) -> BoxedStrategy<Scenario> {
